@@ -2108,7 +2108,6 @@ package gomatrixserverlib
 //@   calls AddEvent@root adds-the-auth-event-not-the-event: exists i int :: 0 <= i && i < len(root_event.AuthEventIDs()) && root_event.AuthEventIDs()[i] in r.authEventMap && event == r.authEventMap[root_event.AuthEventIDs()[i]] && event.Type() == root_eventType && event.StateKeyEquals(root_stateKey)
 //@   loop 1: invariant 0 <= idx(1) && idx(1) <= len(event.AuthEventIDs())
 
-
 // CompactJSON never indexes out of range on a lexically well-formed JSON text (what json.Valid / gjson.Valid accept);
 // its output slice must not be the input's backing array
 //@ func CompactJSON
